@@ -30,7 +30,7 @@
 
 #define NSHARD 16
 
-typedef struct { int thorough; int64_t n_b, n_c, n_d, n_e; } ctx_t;
+typedef struct { int thorough; int64_t n_b, n_c, n_d, n_e, n_f; } ctx_t;
 
 typedef struct { uint64_t off, end; uint8_t kind; uint8_t tag; } region_t;   /* kind: 0 file header, 1 chunk header, 2 payload+pad+crc */
 
@@ -289,6 +289,30 @@ static int make_fault(const plan_t *pl, const ctx_t *c, uint64_t n, fault_t *f) 
                  rg->kind == 0 ? "file-header" : tagname(rg->tag), rg->kind == 2 ? "payload" : "header", (unsigned) (n % 32));
         return 1;
     }
+    n -= (uint64_t) c->n_e;
+    if ((int64_t) n < c->n_f) {
+        /* f: one burst of at most 32 bits, confined to the crc32 field of a chunk header that links to a next item: the
+         * field is replaced by the CRC the header has with item_next = 0, whole or only its 1-3 high bytes - the bytes a
+         * writer leaves behind when it stops inside a link update.  In an unclosed file that is a link to complete; in
+         * this properly closed file it is damage, and accepting it would end the list early without an error. */
+        f->family = 'f';
+        size_t hdrs = 0;
+        for (size_t i = 0; i < pl->nreg; ++i) if (pl->reg[i].kind == 1) { uint64_t nx; memcpy(&nx, pl->file + pl->reg[i].off, 8); if (nx) hdrs++; }
+        if (!hdrs) return 0;
+        size_t pick = (size_t) ((n / 4) % hdrs), seen = 0; const region_t *rg = NULL;
+        for (size_t i = 0; i < pl->nreg && !rg; ++i) if (pl->reg[i].kind == 1) { uint64_t nx; memcpy(&nx, pl->file + pl->reg[i].off, 8); if (nx && seen++ == pick) rg = &pl->reg[i]; }
+        uint8_t h[32]; memcpy(h, pl->file + rg->off, 32);
+        uint32_t crc_new; memcpy(&crc_new, h + 28, 4);
+        memset(h, 0, 8);
+        uint32_t crc_old = jd_crc32c(h, 28);
+        unsigned k = (unsigned) (n % 4);                       /* k low bytes already rewritten with the new CRC */
+        uint32_t mask = k ? (1u << (8 * k)) - 1 : 0;
+        uint32_t v = (crc_new & mask) | (crc_old & ~mask);
+        for (int i = 0; i < 4; ++i) { f->e[i].off = rg->off + 28 + (uint64_t) i; f->e[i].len = 1; f->e[i].mode = 1; f->e[i].val = (uint8_t) (v >> (8 * i)); }
+        f->nedit = 4;
+        snprintf(f->desc, sizeof(f->desc), "crc32 of the %s header at %llu replaced by the CRC for item_next = 0 (%u low bytes kept)", tagname(rg->tag), (unsigned long long) rg->off, k);
+        return 1;
+    }
     return 0;
 }
 
@@ -332,7 +356,7 @@ static void fault_case(uint64_t fi, void *vctx) {
     snprintf(wj, sizeof(wj), "{\"file\":%llu,\"fault\":%llu,\"family\":\"%s\",\"what\":\"%s\",\"region\":\"%s\",\"tag\":\"%s\",\"file_size\":%zu}", (unsigned long long) fc->prog,
              (unsigned long long) fi, fam, f.desc, rk, rg && rg->kind ? tagname(rg->tag) : "-", pl->size);
     v_ctx("file %llu fault %llu %s", (unsigned long long) fc->prog, (unsigned long long) fi, f.desc);
-    v_count("C04", f.family == 'a' ? "faults_single_bit" : f.family == 'b' ? "faults_2_3_bits" : f.family == 'c' ? "faults_burst" : f.family == 'e' ? "faults_near_miss_crc" : "faults_overwrite", 1);
+    v_count("C04", f.family == 'a' ? "faults_single_bit" : f.family == 'b' ? "faults_2_3_bits" : f.family == 'c' ? "faults_burst" : f.family == 'e' ? "faults_near_miss_crc" : f.family == 'f' ? "faults_crc_of_unlinked_header" : "faults_overwrite", 1);
     if (in_pad) v_count("C04", "faults_in_unprotected_pad_bytes", 1);
     if (f.family == 'd') {
         /* a random overwrite could in principle produce a valid CRC (2^-32): such a case is inconclusive, not a violation */
@@ -394,8 +418,8 @@ static void run_case(uint64_t idx, void *vctx) {
         return;
     }
     ctx_t cb = *c;
-    if (big) { cb.n_b /= 8; cb.n_c /= 8; cb.n_d /= 8; cb.n_e /= 8; c = &cb; }   /* each fault copies, writes and reads back several MiB */
-    uint64_t total = pl.abits + (uint64_t) (c->n_b + c->n_c + c->n_d + c->n_e);
+    if (big) { cb.n_b /= 8; cb.n_c /= 8; cb.n_d /= 8; cb.n_e /= 8; cb.n_f /= 8; c = &cb; }   /* each fault copies, writes and reads back several MiB */
+    uint64_t total = pl.abits + (uint64_t) (c->n_b + c->n_c + c->n_d + c->n_e + c->n_f);
     if (shard == 0) {
         v_count("C04", "files", 1);
         v_count("C04", "file_bytes", (int64_t) pl.size);
@@ -433,6 +457,7 @@ int main(int argc, char **argv) {
     c.n_c = v_arg_i(argc, argv, "--nc", c.thorough ? 60000 : 6000);
     c.n_d = v_arg_i(argc, argv, "--nd", c.thorough ? 20000 : 2000);
     c.n_e = v_arg_i(argc, argv, "--ne", c.thorough ? 64000 : 9600);
+    c.n_f = v_arg_i(argc, argv, "--nf", c.thorough ? 8000 : 1600);
     g_check = "flip";
     run_opts_t ro = {.cpu_s = 1200, .wall_s = 3600, .no_fork = v_has_arg(argc, argv, "--no-fork")};
     uint64_t first = (uint64_t) v_arg_i(argc, argv, "--first", 0), count = (uint64_t) v_arg_i(argc, argv, "--count", NSHARD), stride = (uint64_t) v_arg_i(argc, argv, "--stride", 1);
